@@ -2523,3 +2523,46 @@ def length_collision_stream(start_id=49000):
             for huff, f in seq:
                 ops.append('eenc %d %d %s' % (e, huff, _hs(f))); ops.append('pipe %d 1 %d' % (e, e))
     return ops
+
+
+def format_chars_stream(start_id=50000):
+    """every documented refusal raised AT (or right after) a field whose name or value holds characters that are special
+    to string formatting and logging -- `%`, `%s`, `%d`, `%z`, `%(x)s`, `{}`, `{0}`, `{name}`, `$x`, backslashes, quotes,
+    NUL, newlines: the list limit crossed by that field (alone, and as the second field), a bad index / a late size
+    update / a truncation right behind it, and the entry fetched back afterwards. Whatever text an error message or a
+    log line is built from, the class that leaves `decode` must be the documented one."""
+    specials = [b'x-discount-100%', b'%s', b'%d', b'a%zb', b'%(x)s', b'%', b'%%', b'{}', b'{0}', b'{name}', b'{', b'}', b'\\', b'\\N{x}',
+                b'"', b"'", b'\x00', b'a\nb', b'%c', b'%r', b'$x', b'${x}', b'%5', b'{!r}', b'{:d}']
+    lit = lambda pat, n, v: bytes([pat]) + int_octets(len(n), 7) + n + int_octets(len(v), 7) + v
+    ops = []
+    d = start_id
+    for j, sp in enumerate(specials):
+        for n, v in ((sp, b'v'), (b'x', sp), (sp, sp)):
+            size = len(n) + len(v) + 32
+            raw = j % 2
+            d += 1; ops.append('dnew %d %d' % (d, size - 1))                       # this field alone crosses the limit
+            ops.append('ddec %d %d %s' % (d, raw, hx(lit(0x00, n, v))))
+            ops.append('ddec %d %d %s' % (d, 1 - raw, hx(lit(0x40, n, v))))
+            d += 1; ops.append('dnew %d %d' % (d, size + 20))                       # ... as the second field
+            ops.append('ddec %d %d %s' % (d, raw, hx(lit(0x00, b'a', b'') + lit(0x10, n, v))))
+            ops.append('ddec %d %d %s' % (d, raw, hx(lit(0x00, n, v) + b'\x82')))   # the NEXT field crosses (this one is in the list so far)
+            d += 1; ops.append('dnew %d 1000000' % d)
+            ops.append('ddec %d %d %s' % (d, raw, hx(lit(0x40, n, v) + b'\xff\xff\x7f')))       # bad index right behind it
+            ops.append('ddec %d %d %s' % (d, raw, hx(lit(0x40, n, v) + b'\x3f\xe1\x1f')))       # size update after a field
+            ops.append('ddec %d %d %s' % (d, raw, hx(lit(0x40, n, v)[:-1])))                    # truncated inside it
+            ops.append('ddec %d %d %s' % (d, raw, hx(lit(0x40, n, v) + b'\xbe\xbf')))            # inserted twice by now: fetch both
+            ops.append('ddec %d %d %s' % (d, 1 - raw, hx(b'\x7e' + int_octets(len(v), 7) + v + b'\x3f\xff\xff\xff\x7f')))   # its name by index, then an update above the permitted size
+    return ops
+
+
+def huff_pairs_stream():
+    """ONE long-lived coder is given, in 256 short strings, every one of the 65 536 ordered pairs of octets (and every
+    octet next to itself), then a few ordinary strings again: whatever a coder remembers about what it has seen -- pairs,
+    prefixes, whole strings -- has met everything by then"""
+    ops = []
+    for hi in range(256):
+        s = b''.join(bytes([hi, lo]) for lo in range(256))
+        ops.append('henc ' + hx(s))
+    for s in (b'www.example.com', b'\x00\xff\x00\xff', b'custom-key', bytes(range(256)), b'a' * 300):
+        ops.append('henc ' + hx(s)); ops.append('hrt ' + hx(s))
+    return ops
